@@ -454,6 +454,12 @@ func (eng *Engine) readCell(env *Env, k cellKey, t types.Type) AV {
 	if oi != nil && oi.Local && !oi.ElemCell {
 		return zeroAV(t)
 	}
+	if oi != nil && oi.Local && oi.ElemCell {
+		// the element cell of a slice or map made here into which nothing has been stored on this path (a
+		// make that is not zero-filled is either of length zero or filled completely before it is read):
+		// there is no element to read
+		return AV{K: KBot}
+	}
 	// unknown content: an arbitrary value of the type
 	a := eng.fromCF(env, defaultCF(t, 0), t, fmt.Sprintf("cell:%d%s", k.Obj, k.Path))
 	return a
